@@ -404,6 +404,45 @@ def do_create_pipelines(inst, enc, prefix, ops, outs, log):
     outs.append("OPipes [%s]" % "; ".join(items))
 
 
+def read_all(rng, inst, enc, prefix, ops, outs, log, arrays=None):
+    """fill and read EVERY cached / derived attribute in one burst (random order): the five lazy properties,
+    create_pipelines(), and the pixel arrays where the class has them"""
+    STATS["op:read every cached attribute at once"] += 1
+    order = list(range(6))
+    rng.shuffle(order)
+    for gi in order:
+        if gi == 5:
+            do_create_pipelines(inst, enc, prefix, ops, outs, log)
+        else:
+            ops.append("%s %s" % (prefix, GETTERS[gi][0]))
+            outs.append(do_get(inst, enc, gi))
+            log.append(GETTERS[gi][1])
+    if arrays:
+        ops += [arrays[0], arrays[1]]
+        outs += [enc.arrs(inst.wavelength_to_pixel), enc.arrs(inst.wavelengths)]
+        log += [arrays[0], arrays[1]]
+
+
+def list_variant(rng, cur, fresh_item):
+    """a list of the SAME length as cur that differs from it: other content, a permutation, or one element changed;
+    fresh_item(i) returns a replacement for position i that differs from cur[i]"""
+    cur = list(cur)
+    k = rng.choice(["same length, new content", "permutation", "one element changed"])
+    if k == "permutation" and len(cur) >= 2 and any(c is not cur[0] and c != cur[0] for c in cur):
+        new = cur[1:] + cur[:1] if rng.random() < 0.5 else cur[::-1]
+        if all(a is b or a == b for a, b in zip(new, cur)):
+            new = cur[1:] + cur[:1]
+    elif k == "one element changed" or len(cur) == 1:
+        k = "one element changed"
+        i = rng.randrange(len(cur))
+        new = cur[:i] + [fresh_item(i)] + cur[i + 1:]
+    else:
+        k = "same length, new content"
+        new = [fresh_item(i) for i in range(len(cur))]
+    STATS["list parameter replaced: " + k] += 1
+    return new
+
+
 def pick_past(rng, past):
     """re-assign the current or an earlier accepted value (same value again, A -> B -> A)"""
     STATS["op:re-assign a current/earlier value"] += 1
@@ -446,11 +485,21 @@ def sp_history(rng, mod, enc, quick):
             log.append(GETTERS[gi][1])
             read_seen = True
         elif r < 0.41:
-            do_create_pipelines(inst, enc, "SpGet", ops, outs, log)
+            if rng.random() < 0.5:
+                read_all(rng, inst, enc, "SpGet", ops, outs, log, ("SpGetW2p", "SpGetWl"))
+            else:
+                do_create_pipelines(inst, enc, "SpGet", ops, outs, log)
             read_seen = True
         elif r < 0.6:
-            if rng.random() < 0.25:
+            q = rng.random()
+            if q < 0.2:
                 v, va = pick_past(rng, past["w2p"])
+            elif q < 0.45 and len(cur["arrs"]):
+                # after the caches were filled: the same NUMBER of spectra with different content / permuted / one changed
+                read_all(rng, inst, enc, "SpGet", ops, outs, log, ("SpGetW2p", "SpGetWl"))
+                read_seen = True
+                va = list_variant(rng, [list(a) for a in cur["arrs"]], lambda i: gen_edges(rng)[0])
+                v = form_w2p(rng, va)
             else:
                 va, _ = gen_w2p(rng, allow_empty=True)
                 v = form_w2p(rng, va)
@@ -512,9 +561,16 @@ def snapshot(inst, enc, arrays=True):
             snap[attr] = ("ok", [sorted((k, enc.fid.get(id(x), x) if k == "filter" else x) for k, x in d.items()) for d in v])
         else:
             snap[attr] = ("ok", [c.__name__ for c in v])
+    st, v = call(inst.create_pipelines)
+    snap["create_pipelines()"] = ("err", v) if st == "err" else \
+        ("ok", [(type(p).__name__, "" if p.name in DEFAULT_PIPELINE_NAMES else p.name,
+                 enc.fid.get(id(getattr(p, "filter", None)), None) if type(p).__name__ == "RadiancePipeline0D" else None) for p in v])
     if arrays:
         snap["wavelength_to_pixel"] = [[float(x).hex() for x in a] for a in inst.wavelength_to_pixel]
         snap["wavelengths"] = [[float(x).hex() for x in a] for a in inst.wavelengths]
+    if hasattr(inst, "resolution"):
+        snap["resolution(300), (500), (650)"] = [float(inst.resolution(np.float64(w))).hex() for w in (300.0, 500.0, 650.0)
+                                                 if len(getattr(inst, "accommodated_spectra", ())) and w <= max(float(x) for x, _ in inst.accommodated_spectra)]
     return snap
 
 
@@ -757,7 +813,11 @@ def ct_history(rng, mod, enc, quick):
             log.append(GETTERS[gi][1])
             read_seen = True
         elif r < 0.36:
-            do_create_pipelines(inst, enc, "CtGet", ops, outs, log)
+            if rng.random() < 0.5:
+                read_all(rng, inst, enc, "CtGet", ops, outs, log, ("CtGetW2p", "CtGetWl"))
+                read_seen = True
+            else:
+                do_create_pipelines(inst, enc, "CtGet", ops, outs, log)
         elif r < 0.39:
             # wavelength_to_pixel is read-only here (the subclass re-declares the property without a setter): model op
             va, _ = gen_w2p(rng, allow_bad=False)
@@ -797,8 +857,15 @@ def ct_history(rng, mod, enc, quick):
                 v = rng.choice([((0.0, 3),), ((-400.0, 3),), ((-0.0, 2),), ((500.0, 0),), ((500.0, -2),), ((500.0, 3), (600.0, 0)),
                                 [(500.0, 2), (-5e-324, 2)], ((500.0, -0.0),)])
                 STATS["guard value in accommodated_spectra"] += 1
-            elif q < 0.4:
+            elif q < 0.35:
                 v = pick_past(rng, past["acc"])
+            elif q < 0.6 and len(cur["acc"]):
+                # after the caches were filled: the same NUMBER of accommodated spectra, other content / permuted / one changed
+                read_all(rng, inst, enc, "CtGet", ops, outs, log, ("CtGetW2p", "CtGetWl"))
+                read_seen = True
+                base = [(float(w), int(n)) for w, n in cur["acc"]]
+                v = form_acc(rng, list_variant(rng, base, lambda i: (
+                    rng.choice([dyadic(rng, 300, 800, 3), rng.uniform(300, 800)]), rng.choice([base[i][1], rng.randint(1, 6)]))))
             else:
                 v = ct_gen_param(rng, "acc")
             if q >= 0.2 and len(v) and not ct_valid(cur, v):
@@ -1010,11 +1077,24 @@ def pc_history(rng, mod, quick):
             log.append(GETTERS[gi][1])
             read_seen = True
         elif r < 0.45:
-            do_create_pipelines(inst, enc, "PcGet", ops, outs, log)
+            if rng.random() < 0.5:
+                read_all(rng, inst, enc, "PcGet", ops, outs, log)
+            else:
+                do_create_pipelines(inst, enc, "PcGet", ops, outs, log)
             read_seen = True
         elif r < 0.65:
-            if rng.random() < 0.25:
+            q = rng.random()
+            if q < 0.2:
                 v, vt, idx = pick_past(rng, past["filters"])
+            elif q < 0.5 and len(cur["fidx"]):
+                # after the caches were filled: the same NUMBER of filters, other filters / permuted / one replaced
+                read_all(rng, inst, enc, "PcGet", ops, outs, log)
+                read_seen = True
+                idx = list_variant(rng, cur["fidx"], lambda i: rng.choice([j for j in range(len(pool)) if j != cur["fidx"][i]]))
+                v = [pool[i][0] for i in idx]
+                if rng.random() < 0.5:
+                    v = tuple(v)
+                vt = "[" + "; ".join(ftxt(i) for i in idx) + "]"
             else:
                 v, vt, idx, _ = gen_filters()
             o, ok = do_set(inst, "filters", v)
